@@ -411,14 +411,14 @@ class CrcPdu:
                     ctx.count(f"{tag}:decode-error")
                 elif ind is False:
                     ctx.count(f"{tag}:detected")
-                elif f1 == f0:
-                    ctx.count(f"{tag}:accepted-same-fields")
                 else:
-                    ctx.count(f"{tag}:ACCEPTED-DIFFERENT-FIELDS")
+                    same = f1 == f0
+                    ctx.count(f"{tag}:ACCEPTED-{'same' if same else 'DIFFERENT'}-fields")
                     diff = {k: [f0.get(k), f1.get(k)] for k in set(f0) | set(f1) if f0.get(k) != f1.get(k)}
-                    ctx.fail("accepted-with-different-fields",
-                             {"pdu": kind, "last": self.last, "sent": sent, "positions": list(pat), "received": barg(r)},
-                             f"{tag}: a corrupted PDU ({len(pat)} inverted bits: {list(pat)[:12]}) is accepted (indicator true) with different field values {json.dumps(diff)[:300]}",
+                    ctx.fail("corruption-accepted",
+                             {"pdu": kind, "last": self.last, "sent": sent, "positions": list(pat), "received": barg(r), "fields_differ": not same},
+                             f"{tag}: a corrupted PDU ({len(pat)} inverted bits: {list(pat)[:12]}) is accepted (indicator true)"
+                             + (f" with different field values {json.dumps(diff)[:300]}" if not same else " (same field values)"),
                              expected="indicator false or a decode error", actual="indicator true")
         if not ctx.search_only and ctx.driver_ok and pairs:
             ctx.correspond(f"{tag}.indicator", pairs)
@@ -525,12 +525,11 @@ def hrnp_cases(ctx, L):
                 ctx.count("hrnp:decode-error")
             elif q.checksum_correct is False:
                 ctx.count("hrnp:detected")
-            elif fields_of(q, ("checksum", "checksum_correct")) == f0:
-                ctx.count("hrnp:accepted-same-fields")
             else:
-                ctx.count("hrnp:ACCEPTED-DIFFERENT-FIELDS")
-                ctx.fail("accepted-with-different-fields", {"pdu": "hrnp", "sent": b.hex(), "bit": bit, "received": c.hex()},
-                         f"HRNP: a packet with one inverted bit (octet {bit // 8}) is accepted (checksum_correct) with different field values",
+                same = fields_of(q, ("checksum", "checksum_correct")) == f0
+                ctx.count(f"hrnp:ACCEPTED-{'same' if same else 'DIFFERENT'}-fields")
+                ctx.fail("corruption-accepted", {"pdu": "hrnp", "sent": b.hex(), "bit": bit, "received": c.hex(), "fields_differ": not same},
+                         f"HRNP: a packet with one inverted bit (octet {bit // 8}) is accepted (checksum_correct)" + (" with different field values" if not same else " (same field values)"),
                          expected="checksum_correct false or a decode error", actual="checksum_correct true")
     if not ctx.search_only and ctx.driver_ok:
         ctx.correspond("hrnp.checksum_correct", pairs)
@@ -566,7 +565,7 @@ def corpus_cases(ctx, L):
         q = call(L.HRNP.from_bytes, bytes(c))
         ctx.case(("corpus", "hrnp", bit))
         if not is_err(q) and q.checksum_correct:
-            ctx.fail("accepted-with-different-fields", {"pdu": "hrnp", "sent": b.hex(), "bit": bit, "received": bytes(c).hex()},
+            ctx.fail("corruption-accepted", {"pdu": "hrnp", "sent": b.hex(), "bit": bit, "received": bytes(c).hex()},
                      "HRNP DATA packet, error inside the HDAP payload: accepted (checksum_correct)", expected="checksum_correct false or a decode error", actual="checksum_correct true")
 
 
@@ -577,7 +576,7 @@ def run(ctx):
         "all field values parses back ok. CRC PDUs (data header x5 formats, PI header, short LC null/activity, confirmed and confirmed-last "
         "blocks of rate 1/2, 3/4, 1): library-serialised PDUs with random / extreme fields, each with all single-bit errors, (CCITT) all "
         "2-bit and sampled or all 3-bit errors and bursts <= 16, (short LC) all 2-bit errors and every burst <= 8, (CRC-9) sampled or every "
-        "burst <= 9 over the PDU bits; outcome must be a decode error, indicator false, or equal fields. HRNP: captured and library-built "
+        "burst <= 9 (bursts in code order); outcome must be a decode error or indicator false (an accepted corrupted PDU is reported, with or without different field values). HRNP: captured and library-built "
         "packets x every single-bit error. A case is non-trivial unless it is the all-zero word; distinct = distinct (PDU, sent word, pattern)."
     )
     ctx.trusted_base += [
@@ -637,7 +636,7 @@ def replay(obj):
                 print(f"received {inp['received']} (bits {inp.get('positions')} inverted): indicator {ind1 if not is_err(q) else q}")
                 if not is_err(q) and not is_err(p):
                     print("fields differ:", {k: [f0.get(k), f1.get(k)] for k in set(f0) | set(f1) if f0.get(k) != f1.get(k)})
-                    still = int(ind1 is True and f1 != f0)
+                    still = int(ind1 is True)
                 else:
                     still = 0 if is_err(q) else still
                 c = pdu.corr(bitarray(inp["received"]), q)
